@@ -29,11 +29,14 @@ DYADIC = {"P0": 1.0, "tsamp": 2.0 ** -10, "nsamples": 65536}
 # a 5 ms pulsar folded for 600 s into 64 bins: a change of the period by one part in a million drifts the last sub-integration by 7.7 bins
 PPM = {"P0": 0.005, "tsamp": 1.0e-4, "nsamples": 6000000}
 PPM_SHAPES = ((4, 3, 64), (2, 1, 64))
+# an over-resolved fold: 64 bins on a 16 ms period sampled every 0.5 ms (a phase bin is narrower than a sample; Filterbank.fold only warns)
+OVERRES = {"P0": 0.016, "tsamp": 5.0e-4, "nsamples": 200000}
+OVERRES_SHAPES = ((2, 4, 64), (3, 2, 64))
 DYADIC_SHAPES = ((4, 1, 32), (8, 2, 32))
 
 
 def REQUIRED(tier):
-    return ["histories", "hook_checks", "rotation_checks", "law:repeat_noop", "law:return_restores", "law:history_independence", "ops:update_dm", "ops:update_period", "shape:single_subband", "shape:single_subint", "layout:F", "layout:transposed_view", "layout:strided_view", "dyadic_histories", "exact_half_bin_states", "ops:centre_copy_retuned", "nchans:64", "nchans:128", "ppm_histories"]
+    return ["histories", "hook_checks", "rotation_checks", "law:repeat_noop", "law:return_restores", "law:history_independence", "ops:update_dm", "ops:update_period", "shape:single_subband", "shape:single_subint", "layout:F", "layout:transposed_view", "layout:strided_view", "dyadic_histories", "exact_half_bin_states", "ops:centre_copy_retuned", "nchans:64", "nchans:128", "ppm_histories", "overresolved_histories", "histories:warnings_as_errors"]
 
 
 def EXHAUSTIVE(tier):
@@ -58,6 +61,9 @@ def cases(tier, seed):
     for si in range(len(PPM_SHAPES)):
         for first in range(9):
             yield {"kind": "ppm", "shape": si, "first": first}
+    for si in range(len(OVERRES_SHAPES)):
+        for first in range(8):
+            yield {"kind": "overres", "shape": si, "first": first}
     for si in range(len(DYADIC_SHAPES)):
         for first in range(9):
             yield {"kind": "dyadic", "shape": si, "first": first}
@@ -186,15 +192,35 @@ def run_history(ctx, shape, ops, rec):
             if not check_state(ctx, fd, base, shape, dm, period, visited, rec, step):
                 return False
             continue
+        import warnings as _w
+
+        strict = bool(rec.get("strict_warnings"))
+        try:
+            with _w.catch_warnings():
+                if strict:
+                    _w.simplefilter("error")     # a caller running with warnings as errors: an update that warns is refused as a whole
+                if kind == "dm":
+                    fd.update_dm(val)
+                else:
+                    fd.update_period(val)
+        except Warning:
+            ctx.count("ops:update_refused_under_strict_warnings")
+            if not np.array_equal(before, np.asarray(fd.data)) or fd.dm != dm or fd.period != period:
+                ctx.violation("refused-update-left-traces", f"step {step}: update_{kind}({val!r}) raised a warning-as-error but the cube / reported values changed", rec)
+                return False
+            if not check_state(ctx, fd, base, shape, dm, period, visited, rec, step):
+                return False
+            continue
+        except Exception as exc:  # noqa: BLE001
+            ctx.violation(f"update-raised:{kind}:{type(exc).__name__}@{exc_site(exc)}", f"step {step}: update_{kind}({val!r}) raised {fmt_exc(exc)}", rec)
+            return False
         try:
             if kind == "dm":
                 ctx.count("ops:update_dm")
-                fd.update_dm(val)
                 same = val == dm
                 dm = val
             else:
                 ctx.count("ops:update_period")
-                fd.update_period(val)
                 same = val == period
                 period = val
                 visited.append(val)
@@ -242,7 +268,27 @@ def ppm_alphabet():
     return [("p", P), ("p", P * (1 + 1e-6)), ("p", P * (1 + 2e-6)), ("p", P * (1 - 3e-6)), ("p", P * (1 + 8e-6)), ("dm", DM0), ("dm", DM0 + 0.004), ("dm", DM0 + 0.25), ("dm", DM0 + 0.5)]
 
 
+def overres_alphabet():
+    P = OVERRES["P0"]
+    return [("dm", DM0), ("dm", DM0 + 5), ("dm", DM0 - 5), ("dm", DM0 + 40), ("dm", DM0 + 0.5), ("p", P), ("p", P * (1 + 1e-4)), ("p", P * (1 - 3e-4))]
+
+
 def run_case(case, ctx):
+    if case["kind"] == "overres" or case.get("overres"):
+        _cfg.update(dict(OVERRES, nchans=64))
+        _layout["cur"] = "C"
+        shape = OVERRES_SHAPES[case["shape"]]
+        if case["kind"] == "history":
+            run_history(ctx, shape, [tuple(o) for o in case["ops"]], case)
+            return
+        A = overres_alphabet()
+        for ln in range(0, 3):
+            for tail in itertools.product(range(len(A)), repeat=ln):
+                ops = [A[case["first"]]] + [A[i] for i in tail]
+                ctx.count("overresolved_histories")
+                rec = {"kind": "history", "overres": True, "shape": case["shape"], "ops": [list(o) for o in ops]}
+                run_history(ctx, shape, ops, rec)
+        return
     if case["kind"] == "ppm" or case.get("ppm"):
         _cfg.update(dict(PPM, nchans=64))
         _layout["cur"] = "C"
@@ -316,6 +362,9 @@ def run_case(case, ctx):
             ops.append(("dm", float(rng.choice([DM0, DM0 + float(rng.integers(-40, 41)), DM0 + float(rng.uniform(-40, 40)), DM0 + float(rng.uniform(-3000, 3000))]))))
         else:
             ops.append(("p", float(P0 * (1 + rng.choice([0.0, float(rng.uniform(-1e-3, 1e-3)), 1e-4, -1e-4, float(rng.uniform(-2e-5, 2e-5)), float(rng.uniform(-5e-3, 5e-3))])))))
-    rec = {"kind": "history", "shape": case["shape"], "ops": [list(o) for o in ops], "layout": _layout["cur"], "nchans": case.get("nchans", 64)}
+    rec = {"kind": "history", "shape": case["shape"], "ops": [list(o) for o in ops], "layout": _layout["cur"], "nchans": case.get("nchans", 64),
+           "strict_warnings": bool(case["hseed"] % 4 == 0)}
+    if rec["strict_warnings"]:
+        ctx.count("histories:warnings_as_errors")
     if run_history(ctx, shape, ops, rec) and case["hseed"] % 25 == 0:
         ctx.sample({"shape": list(shape), "random_history_head": [list(o) for o in ops[:6]], "length": len(ops)})
